@@ -51,11 +51,13 @@ pub fn echo_mutations(objs: &[u8]) -> Vec<(String, Vec<u8>)> {
                 m[hi].objs[oi].bytes[n - 1] = st;
                 out.push((format!("status{st}/h{hi}o{oi}"), enc(&m)));
             }
-            // every value byte
+            // every bit of every value byte (control code, count, on / off time; analog value)
             for k in 0..o.bytes.len() - 1 {
-                let mut m = hs.clone();
-                m[hi].objs[oi].bytes[k] ^= 0x01;
-                out.push((format!("field-byte{k}/h{hi}o{oi}"), enc(&m)));
+                for bit in 0..8 {
+                    let mut m = hs.clone();
+                    m[hi].objs[oi].bytes[k] ^= 1 << bit;
+                    out.push((format!("field-byte{k}-bit{bit}/h{hi}o{oi}"), enc(&m)));
+                }
             }
             // index
             let mut m = hs.clone();
